@@ -172,6 +172,28 @@ func genHist(r *rand.Rand, id int, kind int, length int) *Hist {
 				g.near(0, 2*L)
 			}
 		}
+	case 8: // planes of every scale: half-extents from 10 m down to the smallest positive float32, far from the origin too
+		scales := []float64{10, 1, 1e-2, 1e-4, 3e-6, 1e-6, 3e-7, 1e-8, 1e-12, 1e-19, 1e-23, 1e-30, 1e-38, 1e-42, 1.4e-45}
+		for i := 0; i < length; i++ {
+			e := func() uint32 {
+				v := float32(scales[r.Intn(len(scales))] * (0.5 + r.Float64()))
+				if v <= 0 {
+					v = math.SmallestNonzeroFloat32
+				}
+				return bf(v)
+			}
+			c := func() uint32 {
+				switch r.Intn(4) {
+				case 0:
+					return bf(float32((r.Float64()*2 - 1) * 0.5))
+				case 1:
+					return bf(float32(r.Intn(121) - 60))
+				default:
+					return bf(float32((r.Float64()*2 - 1) * 50))
+				}
+			}
+			h.Ops = append(h.Ops, Op{Kind: 'I', A: V3{c(), bf(float32(r.Intn(5)-2) * 2), c()}, B: V3{e(), bf(0), e()}})
+		}
 	case 7: // module mode: two to four participants joining and leaving between insertions
 		h.Mode, h.Res = 1, 2
 		h.Ops = append(h.Ops, Op{Kind: 'J', P: 0})
